@@ -185,6 +185,9 @@ class Compiler:
         if isinstance(f, ast.Attribute) and f.attr == "get_int" and isinstance(f.value, ast.Name) \
                 and env["locals"].get(f.value.id, ("",))[0] == "local":
             return env["locals"][f.value.id]          # an incoming message with one integer field is modelled by that integer
+        if isinstance(f, ast.Attribute) and f.attr == "get_binary" and isinstance(f.value, ast.Name) \
+                and env["locals"].get(f.value.id, ("",))[0] == "local":
+            return ("bytesof", env["locals"][f.value.id])   # ... and one string field: the byte-range part of the same value
         if isinstance(f, ast.Name):
             if f.id == "len" and len(node.args) == 1:
                 a = node.args[0]
@@ -196,6 +199,8 @@ class Compiler:
                 return ("lenof", e)
             if f.id == "bytes" and not node.args:
                 return ("bytes", ("const", 0), ("const", 0))
+            if f.id == "isinstance" and len(node.args) == 2 and isinstance(node.args[1], ast.Name) and node.args[1].id == "bytes":
+                return ("isbytes", self.expr(node.args[0], env))
             if f.id == "Message" and not node.args:
                 return ("const", 0)                    # a fresh outgoing message: its value is its type code (0 = none yet)
             if f.id == "b" and len(node.args) == 1:
@@ -333,6 +338,25 @@ class Compiler:
     def mk(self, op, a, node, env):
         return Instr(op, a, getattr(node, "lineno", 0), env["file"], env["frame"])
 
+    def cond_chain(self, test, env, t, f):
+        """a condition written over several lines is several traced lines: one conditional jump per operand line,
+        with Python's short-circuit order (other threads may move between them)"""
+        P = self.prog
+        if isinstance(test, ast.BoolOp) and len({v.lineno for v in test.values}) > 1:
+            is_and = isinstance(test.op, ast.And)
+            nxt = None
+            for v in reversed(test.values):
+                if nxt is None:
+                    nxt = self.cond_chain(v, env, t, f)
+                elif is_and:
+                    nxt = self.cond_chain(v, env, nxt, f)
+                else:
+                    nxt = self.cond_chain(v, env, t, nxt)
+            return nxt
+        ins = self.mk("cjump", self.expr(test, env), test, env)
+        ins.next, ins.alt = t, f
+        return ("pc", P.emit(ins))
+
     def stmt(self, s, env, k):
         P = self.prog
         if isinstance(s, ast.Pass):
@@ -368,12 +392,12 @@ class Compiler:
         if isinstance(s, ast.If):
             t = self.block(s.body, env, k)
             f = self.block(s.orelse, env, k) if s.orelse else k["next"]
-            ins = self.mk("cjump", self.expr(s.test, env), s, env)
-            ins.next, ins.alt = t, f
-            return ("pc", P.emit(ins))
+            return self.cond_chain(s.test, env, t, f)
         if isinstance(s, ast.While):
             if s.orelse:
                 raise Unsupported("while/else")
+            if getattr(s.test, "end_lineno", s.test.lineno) != s.test.lineno:
+                raise Unsupported("while with a condition spanning several lines")
             ins = self.mk("cjump", self.expr(s.test, env), s, env)
             pc = P.emit(ins)
             body = self.block(s.body, env, dict(k, next=("loop", pc)))
@@ -498,10 +522,10 @@ class Compiler:
         return ("pc", P.emit(ins))
 
     def is_pure_call(self, node, env):
-        if isinstance(node.func, ast.Attribute) and node.func.attr == "get_int" and isinstance(node.func.value, ast.Name) \
+        if isinstance(node.func, ast.Attribute) and node.func.attr in ("get_int", "get_binary") and isinstance(node.func.value, ast.Name) \
                 and env["locals"].get(node.func.value.id, ("",))[0] == "local":
             return True
-        return isinstance(node.func, ast.Name) and node.func.id in ("len", "bytes", "b", "Message")
+        return isinstance(node.func, ast.Name) and node.func.id in ("len", "bytes", "b", "Message", "isinstance")
 
     def delete(self, s, env, k):
         P = self.prog
